@@ -15,7 +15,8 @@ Definition acct (st : state) : Prop :=
 (* st' differs from st only in fields the accounting does not read *)
 Record same (st st' : state) : Prop := mkSame {
   sm_cnt : t_cnt st' = t_cnt st; sm_ext : g_ext st' = g_ext st; sm_leak : g_leak st' = g_leak st;
-  sm_floor : g_floor st' = g_floor st; sm_scopes : scopes st' = scopes st; sm_md : md st' = md st }.
+  sm_floor : g_floor st' = g_floor st; sm_scopes : scopes st' = scopes st; sm_md : md st' = md st;
+  sm_fix : fixF st' = fixF st }.
 
 Lemma same_refl : forall st, same st st.
 Proof. intros; constructor; reflexivity. Qed.
@@ -110,10 +111,11 @@ Qed.
 (* effect records *)
 Record eff (st st' : state) (dcnt dext dleak dfloor dh : nat) : Prop := mkEff {
   e_cnt : t_cnt st' = t_cnt st + dcnt; e_ext : g_ext st' = g_ext st + dext; e_leak : g_leak st' = g_leak st + dleak;
-  e_floor : g_floor st' = g_floor st + dfloor; e_h : hsum (scopes st') = hsum (scopes st) + dh; e_md : md st' = md st }.
+  e_floor : g_floor st' = g_floor st + dfloor; e_h : hsum (scopes st') = hsum (scopes st) + dh; e_md : md st' = md st;
+  e_fix : fixF st' = fixF st }.
 
 Lemma same_eff : forall st st', same st st' -> eff st st' 0 0 0 0 0.
-Proof. intros st st' []; constructor; try lia; [rewrite sm_scopes0; lia|assumption]. Qed.
+Proof. intros st st' []; constructor; try lia; [rewrite sm_scopes0; lia|assumption|assumption]. Qed.
 Lemma eff_trans : forall a b c c1 e1 l1 f1 h1 c2 e2 l2 f2 h2,
   eff a b c1 e1 l1 f1 h1 -> eff b c c2 e2 l2 f2 h2 -> eff a c (c1 + c2) (e1 + e2) (l1 + l2) (f1 + f2) (h1 + h2).
 Proof. intros a b c ? ? ? ? ? ? ? ? ? ? [] []; constructor; try lia; congruence. Qed.
@@ -299,6 +301,20 @@ Proof.
   - inversion H; subst. repeat split; try lia.
 Qed.
 
+(* the repair of C13-F1 (when present) takes back exactly what it removes from the scope's debt *)
+Lemma exit_takeback_acct : forall st called calls st' c',
+  exit_takeback st called calls = (st', c') ->
+  c' <= calls /\ g_floor st <= g_floor st' /\
+  t_cnt st' + (calls - c') = t_cnt st + (g_floor st' - g_floor st) /\
+  g_ext st' = g_ext st /\ g_leak st' = g_leak st /\ scopes st' = scopes st /\ md st' = md st /\
+  (fixF st = true -> called = true -> c' = 0).
+Proof.
+  intros st called calls st' c' H. unfold exit_takeback in H.
+  destruct (fixF st && called) eqn:E; inversion H; subst; simpl.
+  - repeat split; try lia.
+  - repeat split; try lia. intros F C. rewrite F, C in E. discriminate.
+Qed.
+
 (* __exit__ *)
 Lemma good_scope_exit : forall st k exc, task_done st = false -> good st (fst (scope_exit st k exc)).
 Proof.
@@ -323,13 +339,15 @@ Proof.
   set (st4 := if s_called s then exit_drop_delayed (fst (fst r)) k else fst (fst r)).
   assert (S4 : same (fst (fst r)) st4).
   { unfold st4. destruct (s_called s); [apply same_exit_drop_delayed|apply same_refl]. }
-  set (new := mkScope false (s_hostc s) (snd (fst r)) SExited (s_called s) (snd r) (s_deadline s) None None).
-  set (st5 := set_g_leak (put_scope st4 k new) (g_leak (put_scope st4 k new) + snd (fst r))).
+  destruct (exit_takeback st4 (s_called s) (snd (fst r))) as [st4b calls'] eqn:ET.
+  apply exit_takeback_acct in ET. destruct ET as (T1 & T2 & T3 & T4 & T5 & T6 & T7 & _).
+  set (new := mkScope false (s_hostc s) calls' SExited (s_called s) (snd r) (s_deadline s) None None).
+  set (st5 := set_g_leak (put_scope st4b k new) (g_leak (put_scope st4b k new) + calls')).
   assert (G5 : good st st5).
   { split.
     - intro Ha. unfold acct in *. unfold st5. simpl.
       destruct S2, S4.
-      assert (Hsc : scopes st4 = scopes st) by congruence.
+      assert (Hsc : scopes st4b = scopes st) by congruence.
       rewrite Hsc.
       pose proof (hsum_upd (scopes st) k new L) as HU.
       fold (get_scope st k) in HU. fold s in HU.
@@ -569,12 +587,12 @@ Proof.
   eapply same_trans; [apply same_call_at|apply IH].
 Qed.
 
-Lemma acct_init : forall p timers turns k, acct (init p timers turns k).
+Lemma acct_init : forall fx p timers turns k, acct (init fx p timers turns k).
 Proof. intros. unfold init. eapply same_acct; [apply push_timers_same|]. reflexivity. Qed.
 
 (* for every program, every controller schedule (timers, injected handles, busy-loop compression) and every number of
    machine steps *)
-Theorem acct_reachable : forall p timers turns k fuel, acct (run_steps fuel (init p timers turns k)).
+Theorem acct_reachable : forall fx p timers turns k fuel, acct (run_steps fuel (init fx p timers turns k)).
 Proof. intros. apply acct_run_steps. apply acct_init. Qed.
 
 Lemma owed_sum_zero : forall l, (forall s, In s l -> s_host s = false) -> owed_sum l = 0.
@@ -584,12 +602,12 @@ Proof.
   unfold owed. rewrite (H a) by (left; reflexivity). reflexivity.
 Qed.
 
-Theorem no_leftover_when_balanced : forall p timers turns k fuel,
-  let st := run_steps fuel (init p timers turns k) in
+Theorem no_leftover_when_balanced : forall fx p timers turns k fuel,
+  let st := run_steps fuel (init fx p timers turns k) in
   (forall s, In s (scopes st) -> s_host s = false) ->
   t_cnt st = g_ext st + g_leak st + g_floor st.
 Proof.
-  intros. pose proof (acct_reachable p timers turns k fuel) as A. fold st in A. unfold acct in A.
+  intros. pose proof (acct_reachable fx p timers turns k fuel) as A. fold st in A. unfold acct in A.
   rewrite owed_sum_zero in A by assumption. lia.
 Qed.
 
